@@ -9,6 +9,7 @@ half for every pattern (`matchPatternEnv_no_error`); what is left is the variabl
 -/
 import AstGrepVerif.Props.C05
 import AstGrepVerif.Lemmas.RuleMatchTotal
+import AstGrepVerif.Lemmas.CoreTotal
 
 set_option linter.unusedSimpArgs false
 set_option linter.unusedVariables false
@@ -120,6 +121,83 @@ theorem rule_ref_equiv_total_doc_example :
     sampleVars 0 sampleVars_ok.1 (by decide +kernel) e1 ?_ _ _ (Nat.le_refl _) (Nat.le_refl _)
   show e1 ∈ docV.preorder
   simp [Tree.preorder, Tree.preorderList]
+
+end Ex
+
+/-! ## global utilities WITH constraints: termination only
+
+`matchRule_total_vars` / `matchRule_total_doc` ask `NoConstraints ctx`; the versions below do not
+(`Lemmas/CoreTotal.lean`: the environment invariant also says that bound nodes are nodes of the
+document, so the constraint loop of a global utility runs on nodes of the document).
+
+There is **no gain for `rule_ref_equiv_total_*`**: `CtxVarFree` already forces constraint-free
+global utilities, and it has to — the reference semantics `sat` ignores constraints
+(`global_constraints_counterexample` in `Props/C05.lean`), so with a constrained global utility the
+equivalence itself is false, not merely unproved. -/
+
+/-- `matchRule_total_vars` without `NoConstraints`, from any environment whose single bindings are
+keyed by distinct names of `K` and bind nodes of the document -/
+theorem matchRule_total_vars_cons (ctx : RCtx) (rank : Name → Nat) (hrank : RegRanked ctx rank)
+    (K : List Name) (r : Rule) (hK : VarsIn K (docVars ctx r))
+    (Kr : Nat) (hrk : refsBelow rank Kr r = true) (n : Tree) (hn : n ∈ ctx.root.preorder)
+    (env : Env) (henv : EnvKS K ctx.root.preorder env)
+    (fuel : Nat) (hf : fuelBound ctx K Kr r ≤ fuel) :
+    ∃ res env', matchRule ctx fuel r n env = .ok (res, env') := by
+  obtain ⟨⟨res, env'⟩, h⟩ := matchRule_total_env ctx rank hrank K r hK Kr hrk n hn env henv fuel hf
+  exact ⟨res, env', h⟩
+
+/-- `matchRule_total_doc` without `NoConstraints`: computed `K`, empty environment -/
+theorem matchRule_total_doc_cons (ctx : RCtx) (rank : Name → Nat) (hrank : RegRanked ctx rank)
+    (r : Rule) (Kr : Nat) (hrk : refsBelow rank Kr r = true)
+    (n : Tree) (hn : n ∈ ctx.root.preorder)
+    (fuel : Nat) (hf : fuelBound ctx (docVars ctx r) Kr r ≤ fuel) :
+    ∃ res env', matchRule ctx fuel r n Env.empty = .ok (res, env') :=
+  matchRule_total_vars_cons ctx rank hrank (docVars ctx r) r (VarsIn.refl _) Kr hrk n hn Env.empty
+    (EnvKS.empty _ _) fuel hf
+
+/-- the same for a rule core (what a scan runs on every node: rule, then its constraint loop) -/
+theorem matchCore_total_doc_cons (ctx : RCtx) (rank : Name → Nat) (hrank : RegRanked ctx rank)
+    (core : RuleCore) (Kr : Nat) (hrk : coreRefsBelow rank Kr core)
+    (n : Tree) (hn : n ∈ ctx.root.preorder)
+    (fuel : Nat) (hf : coreBound ctx (scanVars ctx core) Kr core ≤ fuel) :
+    ∃ res env', matchCore ctx fuel core n Env.empty = .ok (res, env') := by
+  obtain ⟨⟨res, env'⟩, h⟩ := matchCore_total_doc ctx rank hrank (scanVars ctx core) core
+    (VarsIn.refl _) Kr hrk n hn fuel hf
+  exact ⟨res, env', h⟩
+
+namespace Ex
+
+/-- `ctxU` with a CONSTRAINED global utility
+`c := {rule: {pattern: $C}, constraints: {C: {matches: u}}}` -/
+def ctxUC : RCtx :=
+  { ctxU with
+    globals := [(['c'], { rule := .pattern (.metaVar (.capture ['C'] true)) none .smart,
+                          constraints := [(['C'], .matches ['u'])] })] }
+
+/-- `all: [{pattern: $A}, {matches: c}]` -/
+def sampleUC : Rule := .all [.pattern pA none .smart, .matches ['c']] none
+
+theorem ctxUC_acyclic : RegAcyclicAll ctxUC := by decide +kernel
+
+theorem ctxUC_has_constraints : ¬ NoConstraints ctxUC := by
+  intro h
+  have := h ['c'] _ (show alookup ['c'] ctxUC.globals = some _ by simp [ctxUC, alookup]; rfl)
+  simp at this
+
+/-- every hypothesis of `matchRule_total_doc_cons` holds for `sampleUC` over `ctxUC`: normal
+outcome from `e1` with every fuel from the bound on, although `c` carries a constraint -/
+theorem matchRule_total_doc_cons_example :
+    ∀ fuel, fuelBound ctxUC (docVars ctxUC sampleUC) 2 sampleUC ≤ fuel →
+      ∃ res env', matchRule ctxUC fuel sampleUC e1 Env.empty = .ok (res, env') := by
+  intro fuel hf
+  refine matchRule_total_doc_cons ctxUC (regRank ctxUC) ctxUC_acyclic sampleUC 2 (by decide +kernel) e1
+    ?_ fuel hf
+  show e1 ∈ docV.preorder
+  simp [Tree.preorder, Tree.preorderList]
+
+/-- the bound is a number -/
+theorem fuelBound_sampleUC : fuelBound ctxUC (docVars ctxUC sampleUC) 2 sampleUC = 24 := by
+  decide +kernel
 
 end Ex
 
